@@ -28,7 +28,7 @@ META = {
 
 PLAIN = {"iq", "iqf", "q"}
 OVER = {"oq", "oqf"}
-LABELS = ["p_wp", "p_rp", "p_st", "p_cas_s", "p_cas_f", "c_rp", "c_wp", "c_st", "c_cas_s", "c_cas_f"]
+LABELS = ["p_wp", "p_rp", "p_st", "p_cas_s", "p_cas_f", "c_rp", "c_wp", "c_st", "c_cas_s", "c_cas_f", "hc_s", "hc_f", "hc_rel"]
 
 
 def strip_aux(recs):
@@ -37,7 +37,8 @@ def strip_aux(recs):
     extraction nor the trace specification treats them as algorithm steps."""
     out = []
     for e in recs:
-        if e.get("k") == "atom" and "relocatable_pointer.rs" in e.get("site", ""):
+        if e.get("k") == "atom" and ("relocatable_pointer.rs" in e.get("site", "") or e.get("w") == 1):
+            # relocatable pointer distance; 1-byte flags (has_producer / has_consumer token, debug init flag)
             e = dict(e, k="aux")
         out.append(e)
     return out
@@ -93,7 +94,20 @@ def extract_ord(recs, overflow):
     return ord_tab, sorted(set(drift))
 
 
-def mc_module(ctx, name, cap, overflow, npush, npop, ord_tab, invariants):
+def extract_handover(recs):
+    """orderings of the has_consumer token: acquire_consumer = CAS on a 1-byte flag, drop = store of it"""
+    tab = {}
+    for e in recs:
+        if e.get("k") == "atom" and e.get("w") == 1:
+            if e["op"] in ("cas", "cas_weak"):
+                tab.setdefault("hc_s", e["ord"])
+                tab.setdefault("hc_f", e["ordf"])
+            elif e["op"] == "store":
+                tab.setdefault("hc_rel", e["ord"])
+    return tab if len(tab) == 3 else None
+
+
+def mc_module(ctx, name, cap, overflow, npush, npop, ord_tab, invariants, handover=False):
     ordv = ", ".join(f'{l} |-> "{ord_tab.get(l, "SeqCst")}"' for l in LABELS)
     d = ctx.path("mc", name, "x")[:-2]
     with open(os.path.join(d, f"{name}.tla"), "w") as f:
@@ -102,6 +116,7 @@ def mc_module(ctx, name, cap, overflow, npush, npop, ord_tab, invariants):
         f.write("SPECIFICATION Spec\nCONSTANTS\n"
                 f" Cap = {cap}\n NSlots = {cap + (1 if overflow else 0)}\n"
                 f" Overflow = {'TRUE' if overflow else 'FALSE'}\n NPush = {npush}\n NPop = {npop}\n"
+                f" NCons = {2 if handover else 1}\n Handover = {'TRUE' if handover else 'FALSE'}\n"
                 " Ord <- OrdVal\n"
                 f"INVARIANTS {' '.join(invariants)}\nCHECK_DEADLOCK FALSE\n")
     return d
@@ -115,7 +130,8 @@ def trace_module(ctx, name, cap, overflow, ord_tab):
     with open(os.path.join(d, f"{name}.cfg"), "w") as f:
         f.write("SPECIFICATION TraceSpec\nCONSTANTS\n"
                 f" Cap = {cap}\n NSlots = {cap + (1 if overflow else 0)}\n"
-                f" Overflow = {'TRUE' if overflow else 'FALSE'}\n NPush = 99\n NPop = 99\n Ord <- OrdVal\n"
+                f" Overflow = {'TRUE' if overflow else 'FALSE'}\n NPush = 99\n NPop = 99\n NCons = 1\n Handover = FALSE\n"
+                " Ord <- OrdVal\n"
                 "CONSTRAINT Progress\nPOSTCONDITION Accepted\nCHECK_DEADLOCK FALSE\n")
     return d
 
@@ -265,6 +281,20 @@ def run(ctx):
                 ctx.sample({"kind": kind, "cap": cap,
                             "history": [f"t{r['t']}:{r['k']}:{r['a']}:{r.get('r', r.get('v'))}" for r in run0
                                         if r.get("k") in ("call", "ret")]})
+        # consumer hand-over between two threads (acquire_consumer / drop of the handle)
+        out = ctx.path("traces", f"{kind}-handover.ndjson")
+        _, so, _ = vp.run_driver("drv-lockfree", ["spsc", "--kind", kind, "--cap", 2, "--push", 3, "--pop", 1, "--mode", "random",
+                                                 "--runs", 80 if quick else 2000, "--handover", "--atoms", "--out", out],
+                                 timeout=1800, env={"VERIF_SEED": ctx.seed})
+        summ = vp.last_json_line(so)
+        ctx.evaluations += summ["executions"]
+        hrecs = vp.read_ndjson(out)
+        ho = extract_handover(hrecs)
+        if ho:
+            ord_tabs[kind].update(ho)
+        else:
+            ctx.note(f"{kind}: orderings of the consumer token not extracted (hand-over model not applicable)")
+        api_items.append((out, (kind, summ)))
         # random long schedules
         n = 60 if quick else 3000
         trace, summ = run_exec(ctx, kind, 2, 8, 8, "random", 0, n, False, f"{kind}-random")
@@ -274,7 +304,8 @@ def run(ctx):
     zero_copy_channel(ctx)
 
     # ---- 2. TLC on the implementation-shaped model with the EXTRACTED orderings (V2)
-    mcs = [("plain", False, 1, 3, 3), ("plain", False, 2, 3, 3), ("over", True, 1, 3, 2), ("over", True, 2, 4, 3)]
+    mcs = [("plain", False, 1, 3, 3), ("plain", False, 2, 3, 3), ("over", True, 1, 3, 2), ("over", True, 2, 4, 3),
+           ("plain-handover", False, 2, 2, 1), ("over-handover", True, 1, 3, 1)]
     if not quick:
         mcs += [("plain", False, 2, 4, 4), ("plain", False, 3, 4, 4), ("over", True, 1, 4, 3),
                 ("over", True, 2, 5, 4), ("over", True, 3, 5, 4)]
@@ -289,9 +320,12 @@ def run(ctx):
         for (nm, ov, cap, npush, npop) in mcs:
             if ov != overflow:
                 continue
-            name = f"MC_{kind}_{cap}_{npush}_{npop}"
+            ho = nm.endswith("handover")
+            if ho and "hc_s" not in tab:
+                continue
+            name = f"MC_{kind}_{cap}_{npush}_{npop}" + ("_ho" if ho else "")
             invs = INVS + ([] if overflow else ["NoDataRace"])
-            d = mc_module(ctx, name, cap, overflow, npush, npop, tab, invs)
+            d = mc_module(ctx, name, cap, overflow, npush, npop, tab, invs, handover=ho)
             res = vp.tlc(d, name, workers=8, timeout=900 if quick else 2400, libs=["lockfree"])
             vp.record_tlc(ctx, f"SpscImpl[{kind} cap={cap} push={npush} pop={npop} ord=extracted]", res)
             if res.timed_out:
@@ -304,12 +338,13 @@ def run(ctx):
                     replay={"kind": kind, "invariant": res.violated, "orderings": tab, "cap": cap,
                             "counterexample": cex_summary(res),
                             "cmd": f"tlc {name} (generated by bin/check C03 in work/C03-{ctx.tier}/mc/{name})"},
-                    signature=f"c11:{'overflow' if overflow else 'plain'}:{res.violated}:"
+                    signature=f"c11:{'overflow' if overflow else 'plain'}{'-handover' if ho else ''}:{res.violated}:"
                               + ",".join(f"{l}={tab.get(l)}" for l in ("c_rp", "c_wp", "p_cas_s") if overflow)))
                 break
             if not res.ok:
                 raise vp.ToolError(f"TLC failed on {name}: {res.error}\n{res.output[-3000:]}")
-            need = ["PLoadWp", "PStoreWp", "CLoadWp", "CReadSlot"] + (["PCasRp", "CCasRp", "PReadEvicted"] if overflow else ["CStoreRp"])
+            need = ["PLoadWp", "PStoreWp", "CLoadWp", "CReadSlot"] + (["PCasRp", "CCasRp"] if overflow else ["CStoreRp"]) \
+                + (["CAcquire", "CRelease"] if ho else (["PReadEvicted"] if overflow else []))
             vp.check_action_coverage(res, need, name)
 
     # ---- 3. non-vacuity: weakened instances MUST be refuted (thorough only)
